@@ -134,6 +134,69 @@ def bfs(mname, rname, iname, cfl, mspec, idx, letters, depth, res=None):
     return out
 
 
+def drivers(mname, rname, iname, cfl, mspec, idx, letters, res=None):
+    """the library's drivers instead of hand-made steps: the states saved by solve_legacy are chained by whole CFL steps (the last one before a
+    save time shortened), so each stays in the range of the one before and does not gain variation; the states returned by solve (snapshots
+    are side steps off the trajectory) stay in the range of the initial data.  Save times off the step grid (2.4 initial steps apart)."""
+    model = model_of(mname)
+    mesh = space.mesh_spec(mspec)
+    cls = space.integrators()[iname]
+    u0 = np.array([letters[i] for i in idx], float)
+    out = []
+    sc = float(np.abs(u0).max())
+    n = len(idx)
+    for entry in ("solve_legacy", "solve"):
+        disc = space.modeldisc.fvm(model, mesh, space.recon(rname))
+        f = space.field.fdata(model, mesh, [u0.copy()])
+        with np.errstate(all="ignore"):
+            dt0 = float(np.min(disc.calc_timestep(f, cfl)))
+        if not np.isfinite(dt0):
+            if res is not None:
+                res.skipped += 1
+            return out
+        ts = [2.4 * dt0 * j for j in (1, 2, 3)]
+        try:
+            with np.errstate(all="ignore"), core.time_limit(20.0):
+                got = list(cls(mesh, disc).solve_legacy(f, cfl, ts)) if entry == "solve_legacy" else list(cls(mesh, disc).solve(f, cfl, ts).solutions)
+        except core.CallTimeout:
+            out.append(("C09/driver/%s/%s/%s/%s/non-termination" % (entry, mname, rname.replace(":", "-"), iname), "%s did not return for data %r" % (entry, u0.tolist())))
+            continue
+        if res is not None:
+            res.transitions += 1
+            res.evals += 1
+        prev = u0
+        for j, g in enumerate(got):
+            new = np.asarray(g.data[0], float)
+            over = max(float(new.max() - prev.max()), float(prev.min() - new.min()))
+            dtv = tv(new) - tv(prev)
+            site = "C09/driver/%s/%s/%s/%s/cfl=%g" % (entry, mname, rname.replace(":", "-"), iname, cfl)
+            if not np.all(np.isfinite(new)) or not over <= K * EPS * sc:
+                out.append((site + "/range", "%s %s %s CFL %g mesh %r data %r: state %d returned by %s has range [%r,%r], the %s [%r,%r]" % (
+                    mname, rname, iname, cfl, mspec, u0.tolist(), j, entry, new.min(), new.max(), "saved state before it" if entry == "solve_legacy" else "initial data", prev.min(), prev.max())))
+                break
+            if not dtv <= K * EPS * sc * n:
+                out.append((site + "/tvd", "%s %s %s CFL %g mesh %r data %r: state %d returned by %s has total variation %r > %r" % (
+                    mname, rname, iname, cfl, mspec, u0.tolist(), j, entry, tv(new), tv(prev))))
+                break
+            if entry == "solve_legacy":
+                prev = new
+    return out
+
+
+def shard_drivers(arg):
+    mname, rname, iname, cfl, mspec, letters = arg
+    res = core.Res()
+    n = mspec[1] if mspec[0] == "uni" else len(mspec[1])
+    for idx in itertools.product(range(len(letters)), repeat=n):
+        if len(set(idx)) == 1 or (mname == "burgers" and all(letters[i] == 0 for i in idx)):
+            continue
+        res.nontrivial += 1
+        res.traces += 1
+        for s, w in drivers(mname, rname, iname, cfl, mspec, idx, letters, res):
+            res.violation(s, w, {"kind": "drv", "model": mname, "recon": rname, "integrator": iname, "cfl": cfl, "mesh": mspec, "idx": list(idx), "letters": list(letters)})
+    return res
+
+
 def shard_bfs(arg):
     mname, rname, iname, cfl, mspec, letters, depth = arg
     res = core.Res()
@@ -205,6 +268,12 @@ def run(ctx):
                         cfg2.append((mname, rname, iname, 1.0 if iname == "explicit" else 0.5, ("w", wv), space.S_QUICK, 3))
     cfg2.sort(key=lambda c: -(len(c[5]) ** (c[4][1] if c[4][0] == "uni" else len(c[4][1]))))
     ctx.pmap("bfs-range-tvd", shard_bfs, cfg2)
+    cfg3 = []
+    for mname in ("convection+", "convection-", "burgers"):
+        for rname in recs:
+            for iname in (SSP if th else ["explicit", "rk3ssp"]):
+                cfg3.append((mname, rname, iname, 1.0 if (rname == "extrapol1" and iname == "explicit") else 0.5, ("uni", 4, 4.0, 0.0), space.S_QUICK))
+    ctx.pmap("drivers-solve-and-solve_legacy", shard_drivers, cfg3)
     multi = []
     for mname in ("convection+", "convection-", "burgers"):
         for rname in recs:
@@ -218,6 +287,8 @@ def _tup(x):
 
 
 def replay(case):
+    if case["kind"] == "drv":
+        return drivers(case["model"], case["recon"], case["integrator"], case["cfl"], _tup(case["mesh"]), tuple(case["idx"]), case["letters"])
     if case["kind"] == "window":
         j = case["index"]
         v = check_windows(case["model"], case["recon"], case["cfl"], case["letters"], case["widths"], j, j + 1)
